@@ -341,6 +341,9 @@ func checkDefaultPair(r *vk.Run, eq cmp.Message, p *pair) {
 	r.Count("equal-vs-proto/pairs", 1)
 	r.Count("equal-vs-proto/family:"+p.family, 1)
 	for _, c := range p.classes {
+		if p.family == "nil" {
+			c = "nil-or-typed-nil"
+		}
 		r.Count("equal-vs-proto/mutation:"+c, 1)
 	}
 	if want {
